@@ -116,7 +116,7 @@ EpsFails(o, d) ==
       run == PenRun(d.ops, tol)
       got == SeqSet(FlipRows(run.cells, cells))
       wd == ColourOf(o.dark) wl == ColourOf(o.light)
-      ColOK(rgb, want) == Len(rgb) = 3 /\ \A k \in 1..3 : Near(rgb[k], want[k] * 1000, 600)     \* printed with 6 decimals of c/255
+      ColOK(rgb, c) == Len(rgb) = 3 /\ \A k \in 1..3 : Near(rgb[k], Milli(c)[k], 600)     \* printed with 6 decimals of c/255
   IN {c \in {"well_formed", "page", "transform", "path_grid", "cover_exact", "every_module_once", "inside_page", "dark_colour", "background"} :
         CASE c = "well_formed" -> ~(d.dsc_ok /\ d.eof_ok /\ d.stroked /\ d.unknown = 0)
           [] c = "page" -> ~(d.bbox # <<>> /\ d.bbox[1] = 0 /\ d.bbox[2] = 0 /\ Near(d.bbox[3], wantW, tol) /\ Near(d.bbox[4], wantW, tol))
@@ -125,8 +125,8 @@ EpsFails(o, d) ==
           [] c = "cover_exact" -> got # DarkCells(M, b)
           [] c = "every_module_once" -> Len(run.cells) # Cardinality(got)
           [] c = "inside_page" -> \E p \in got : p[1] < 0 \/ p[1] >= cells \/ p[2] < 0 \/ p[2] >= cells
-          [] c = "dark_colour" -> IF d.stroke_rgb = <<>> THEN ~(wd[1] = 0 /\ wd[2] = 0 /\ wd[3] = 0) ELSE ~ColOK(d.stroke_rgb, wd)
-          [] c = "background" -> IF o.light.kind = "none" THEN d.bg_rgb # <<>> ELSE ~(d.bg_whole_page /\ ColOK(d.bg_rgb, wl))}
+          [] c = "dark_colour" -> IF d.stroke_rgb = <<>> THEN ~(wd[1] = 0 /\ wd[2] = 0 /\ wd[3] = 0) ELSE ~ColOK(d.stroke_rgb, o.dark)
+          [] c = "background" -> IF o.light.kind = "none" THEN d.bg_rgb # <<>> ELSE ~(d.bg_whole_page /\ ColOK(d.bg_rgb, o.light))}
 
 (* ---------------- PDF ---------------- *)
 \* d: [header_ok, xref_ok, length_ok, mediabox, scale (micro), translate <<tx, ty>> (micro), ops (M / L absolute, after translate),
@@ -141,7 +141,7 @@ PdfFails(o, d) ==
       run == PenRun(shifted, tol)
       got == SeqSet(FlipRows(run.cells, cells))
       wd == ColourOf(o.dark) wl == ColourOf(o.light)
-      ColOK(rgb, want) == Len(rgb) = 3 /\ \A k \in 1..3 : Near(rgb[k], want[k] * 1000, 600)
+      ColOK(rgb, c) == Len(rgb) = 3 /\ \A k \in 1..3 : Near(rgb[k], Milli(c)[k], 600)
   IN {c \in {"well_formed", "stream_length", "xref_offsets", "page", "transform", "path_grid", "cover_exact", "every_module_once",
              "inside_page", "dark_colour", "background"} :
         CASE c = "well_formed" -> ~(d.header_ok /\ d.objects_ok /\ d.stroked /\ d.unknown = 0)
@@ -153,9 +153,9 @@ PdfFails(o, d) ==
           [] c = "cover_exact" -> got # DarkCells(M, b)
           [] c = "every_module_once" -> Len(run.cells) # Cardinality(got)
           [] c = "inside_page" -> \E p \in got : p[1] < 0 \/ p[1] >= cells \/ p[2] < 0 \/ p[2] >= cells
-          [] c = "dark_colour" -> IF d.stroke_rgb = <<>> THEN ~(wd[1] = 0 /\ wd[2] = 0 /\ wd[3] = 0) ELSE ~ColOK(d.stroke_rgb, wd)
+          [] c = "dark_colour" -> IF d.stroke_rgb = <<>> THEN ~(wd[1] = 0 /\ wd[2] = 0 /\ wd[3] = 0) ELSE ~ColOK(d.stroke_rgb, o.dark)
           [] c = "background" -> IF o.light.kind = "none" THEN d.bg_rgb # <<>>
-                                 ELSE ~(ColOK(d.bg_rgb, wl) /\ d.bg_rect # <<>> /\ d.bg_rect[1] <= 0 /\ d.bg_rect[2] <= 0
+                                 ELSE ~(ColOK(d.bg_rgb, o.light) /\ d.bg_rect # <<>> /\ d.bg_rect[1] <= 0 /\ d.bg_rect[2] <= 0
                                         \* the rectangle must cover the whole page in the coordinate system in force when it is filled
                                         /\ d.bg_rect[1] + d.bg_rect[3] >= (IF d.bg_scaled THEN cells * U ELSE wantW) - tol
                                         /\ d.bg_rect[2] + d.bg_rect[4] >= (IF d.bg_scaled THEN cells * U ELSE wantW) - tol)}
